@@ -9,7 +9,7 @@ from checks.outparse import parse_views, parse_raws
 
 ID = "C19"
 LEAN_MODULES = ["Econf.Props.C19"]
-THEOREMS = []
+THEOREMS = ["Econf.C19_block_shown", "Econf.C19_key_in_block", "Econf.C19_key_shown", "Econf.C19_key_line", "Econf.C19_groupless_only"]
 SHRINK = False
 RULE = ("two-layer trees under $ECONFTOOL_ROOT (vendor /usr/etc, local /etc) and single absolute files x --delimiters/--comment choices "
         "x files with only group-less keys, only sections, both, key-less sections, multi-line values, malformed lines: the freshly built "
